@@ -175,8 +175,10 @@ public:
   const_pointer data() const { return data_; }
 
   void push_back(const _Tp& value) {
+    // value may refer to an element of this array, which realloc invalidates
+    _Tp tmp = value;
     resize(size_ + 1);
-    data_[size_ - 1] = value;
+    data_[size_ - 1] = tmp;
   }
 
   template <class InputIterator>
